@@ -15,6 +15,41 @@ OPS_ASSIGN = {'add_assign': 'Add', 'sub_assign': 'Sub', 'mul_assign': 'Mul', 'sh
               'bitand_assign': 'BitAnd', 'bitor_assign': 'BitOr', 'bitxor_assign': 'BitXor'}
 
 
+def overflow_checked(ex):
+    """the facts come from a build with overflow checks on (the checked profile)"""
+    try:
+        return bool(ex.pdb.F["meta"].get("overflow_checks", True))
+    except Exception:
+        return True
+
+
+def op_panic_sites(ex, st, key, line, op, a, b, ty):
+    """panic sites of an arithmetic operator reached through the operator traits (operands behind references, compound
+    assignment with a reference): the library impls inherit the calling crate's overflow checks"""
+    if ty not in INT_BITS:
+        return
+    if op in ('Add', 'Sub', 'Mul') and overflow_checked(ex):
+        if a[0] == 'c' and b[0] == 'c':
+            if overflow_flag(op, a[1], b[1], ty):
+                ex.obligations.append(Obligation(key, line, 'Overflow:' + op, FALSE, ex.gs(st), [a, b], tuple(ex.fn_stack)))
+        else:
+            flag = mk('bin', op + 'Ovf', a, b, 'bool')
+            ex.obligations.append(Obligation(key, line, 'Overflow:' + op, mk_not(flag), ex.gs(st), [a, b], tuple(ex.fn_stack)))
+    if op in ('Shl', 'Shr') and overflow_checked(ex):
+        bits = INT_BITS[ty]
+        tb = ty_of(b)
+        if tb in INT_BITS and not is_signed(tb):
+            okc = mk_bin('Lt', mk_cast(b, 'u32') if tb != 'u32' and INT_BITS[tb] < 32 else b, C(bits, tb if (tb == 'u32' or INT_BITS[tb] >= 32) else 'u32'), tb if (tb == 'u32' or INT_BITS[tb] >= 32) else 'u32', 'bool')
+        else:
+            okc = mk_and(mk_bin('Ge', b, C(0, tb), tb, 'bool'), mk_bin('Lt', b, C(bits, tb), tb, 'bool'))
+        ex.obligations.append(Obligation(key, line, 'Overflow:' + op, okc, ex.gs(st), [a, b], tuple(ex.fn_stack)))
+    if op in ('Div', 'Rem'):
+        ex.obligations.append(Obligation(key, line, 'DivisionByZero' if op == 'Div' else 'RemainderByZero', mk_bin('Ne', b, C(0, ty), ty, 'bool'), ex.gs(st), [a, b], tuple(ex.fn_stack)))
+        if is_signed(ty):
+            lo_ = -(1 << (INT_BITS[ty] - 1))
+            ex.obligations.append(Obligation(key, line, 'Overflow:' + op, mk_not(mk_and(mk_bin('Eq', a, C(lo_, ty), ty, 'bool'), mk_bin('Eq', b, C(-1, ty), ty, 'bool'))), ex.gs(st), [a, b], tuple(ex.fn_stack)))
+
+
 def ordering(ex, name):
     return agg(('adt', ORDERING, ex.pdb.variant_index(ORDERING, name)), ())
 
@@ -934,16 +969,7 @@ def apply(ex, ctx, st, f, args, dest_ty, term):
             if ty not in INT_BITS and ty not in ('f32', 'f64'):
                 raise Uncertified("operator %s on %s" % (name, ty))
             op = OPS_BIN[name]
-            if op in ('Add', 'Sub', 'Mul') and ty in INT_BITS:
-                if not (a[0] == 'c' and b[0] == 'c'):
-                    flag = mk('bin', op + 'Ovf', a, b, 'bool')
-                    ex.obligations.append(Obligation(key, line, 'Overflow:' + op, mk_not(flag), ex.gs(st), [a, b], tuple(ex.fn_stack)))
-            if op in ('Shl', 'Shr'):
-                bits = INT_BITS[ty]
-                okc = mk_bin('Lt', mk_cast(b, 'u32') if ty_of(b) != 'u32' else b, C(bits, 'u32'), 'u32', 'bool')
-                ex.obligations.append(Obligation(key, line, 'Overflow:' + op, okc, ex.gs(st), [a, b], tuple(ex.fn_stack)))
-            if op in ('Div', 'Rem'):
-                ex.obligations.append(Obligation(key, line, 'DivisionByZero', mk_bin('Ne', b, C(0, ty), ty, 'bool'), ex.gs(st), [a, b], tuple(ex.fn_stack)))
+            op_panic_sites(ex, st, key, line, op, a, b, ty)
             return mk_bin(op, a, b, ty, ty), st
         else:
             tgt, b = args
@@ -952,13 +978,18 @@ def apply(ex, ctx, st, f, args, dest_ty, term):
                 b = ex.load(st, b)
             ty = ty_of(a)
             op = OPS_ASSIGN[name]
+            # (the library's operator impls inherit the calling crate's overflow checks: `x -= &y` panics like `x -= y`)
+            op_panic_sites(ex, st, key, line, op, a, b, ty)
             ex.store(st, tgt, mk_bin(op, a, b, ty, ty))
             return UNIT, st
     if dpath in ('core::ops::Not::not', 'core::ops::Neg::neg') and not f.get('resolved_local'):
         a = args[0]
         while a[0] == 'ref':
             a = ex.load(st, a)
-        return mk_un('Not' if name == 'not' else 'Neg', a, ty_of(a)), st
+        ty_ = ty_of(a)
+        if name == 'neg' and ty_ in INT_BITS and is_signed(ty_) and overflow_checked(ex):
+            ex.obligations.append(Obligation(key, line, 'Overflow:Neg', mk_bin('Ne', a, C(-(1 << (INT_BITS[ty_] - 1)), ty_), ty_, 'bool'), ex.gs(st), [a], tuple(ex.fn_stack)))
+        return mk_un('Not' if name == 'not' else 'Neg', a, ty_), st
     if path == 'core::array::<impl [T; N]>::map':
         arr = args[0]
         if arr[0] != 'agg':
